@@ -522,13 +522,16 @@ func getNextPos(slice1, slice2 []uint64, slice1Idx, slice2Idx int) (uint64, int,
 	}
 
 	// Attempt to grab the sibling of the current position to process.
+	//
+	// Only a left node can be followed by its sibling. A right node followed by
+	// the same position is a duplicate, not a sibling.
 	sibIdx := nextLeastSlice(slice1, slice2, slice1Idx, slice2Idx)
 	if sibIdx == 0 {
-		if rightSib(pos) != slice1[slice1Idx] {
+		if !isLeftNiece(pos) || rightSib(pos) != slice1[slice1Idx] {
 			sibIdx = -1
 		}
 	} else if sibIdx == 1 {
-		if rightSib(pos) != slice2[slice2Idx] {
+		if !isLeftNiece(pos) || rightSib(pos) != slice2[slice2Idx] {
 			sibIdx = -1
 		}
 	}
@@ -560,6 +563,10 @@ func calculateHashes(numLeaves uint64, delHashes []Hash, proof Proof) (hashAndPo
 
 	// Separate index for the hashes in the passed in proof.
 	proofHashIdx := 0
+
+	// The last position that was processed, used to detect duplicates.
+	var lastPos uint64
+	processedAny := false
 	for row := uint8(0); row <= totalRows; {
 		// Grab the next position and hash to process.
 		var proveHash Hash
@@ -567,6 +574,15 @@ func calculateHashes(numLeaves uint64, delHashes []Hash, proof Proof) (hashAndPo
 		if idx == -1 {
 			break
 		}
+
+		// Positions are processed in ascending order. Seeing the same position
+		// twice means that a target was duplicated or that a target is also an
+		// ancestor of another target. Neither is a valid proof.
+		if processedAny && provePos == lastPos {
+			return hashAndPos{}, nil, fmt.Errorf("invalid proof. Position %d is given "+
+				"or calculated more than once", provePos)
+		}
+		processedAny, lastPos = true, provePos
 		if idx == 0 {
 			proveHash = toProve.hashes[toProveIdx]
 			toProveIdx++
@@ -606,6 +622,7 @@ func calculateHashes(numLeaves uint64, delHashes []Hash, proof Proof) (hashAndPo
 				sibHash = nextProves.hashes[nextProvesIdx]
 				nextProvesIdx++
 			}
+			lastPos = rightSib(provePos)
 		} else {
 			if len(proof.Proof) <= proofHashIdx {
 				return hashAndPos{}, nil, fmt.Errorf("invalid proof. Proof too short.")
